@@ -446,4 +446,35 @@ theorem broadcast_comm (a b : Shape) : broadcast a b = broadcast b a := by
         · have he : xa.length = xb.length := by omega
           simp [he, bZip_comm xa xb]
 
+/-! ### rank of the result -/
+
+theorem bZip_length : (a b c : List Natural) → bZip a b = some c → c.length = min a.length b.length
+  | [], _, c, h => by simp [bZip] at h; subst h; simp
+  | _ :: _, [], c, h => by simp [bZip] at h; subst h; simp
+  | x :: xs, y :: ys, c, h => by
+    simp only [bZip] at h
+    cases hxy : bElem x y with
+    | none => simp [hxy] at h
+    | some z =>
+      simp only [hxy, Option.map_eq_some_iff] at h
+      obtain ⟨zs, hzs, rfl⟩ := h
+      have := bZip_length xs ys zs hzs
+      simp only [List.length_cons, this]
+      omega
+
+theorem broadcast_rank (a b c : List Natural) (h : broadcast (some a) (some b) = some (some c)) :
+    c.length = max a.length b.length := by
+  simp only [broadcast] at h
+  by_cases hgt : a.length > b.length
+  · simp only [hgt, if_true, Option.map_eq_some_iff, Option.some.injEq] at h
+    obtain ⟨zc, hz, rfl⟩ := h
+    have := bZip_length _ _ _ hz
+    simp only [List.length_append, List.length_replicate] at this
+    omega
+  · simp only [hgt, if_false, Option.map_eq_some_iff, Option.some.injEq] at h
+    obtain ⟨zc, hz, rfl⟩ := h
+    have := bZip_length _ _ _ hz
+    simp only [List.length_append, List.length_replicate] at this
+    omega
+
 end Types
